@@ -17,11 +17,22 @@ package message
 import (
 	"encoding/binary"
 	"fmt"
+	"sync/atomic"
 )
 
 var (
 	gPacketID uint64 = 0
 )
+
+// nextPacketID returns the next automatically assigned packet ID. Zero is not
+// a valid packet ID and is skipped when the counter wraps around.
+func nextPacketID() uint16 {
+	for {
+		if id := uint16(atomic.AddUint64(&gPacketID, 1) & 0xffff); id != 0 {
+			return id
+		}
+	}
+}
 
 // Fixed header
 // - 1 byte for control packet type (bits 7-4) and flags (bits 3-0)
